@@ -14,6 +14,8 @@ structure Cfg where
   disableNorm : Bool := false
   maxBody : Nat := 4194304
   disableKeepalive : Bool := false
+  /-- `!DisablePreParseMultipartForm` -/
+  preParse : Bool := false
 deriving Repr
 
 /-- what the handler observes of one request -/
@@ -24,6 +26,7 @@ structure Seen where
 deriving Repr, DecidableEq
 
 inductive Ev where
+  | unmodelled        -- from here on the model has no opinion (multipart pre-parse by mime/multipart)
   | continue100
   | req (s : Seen)
   | resp (status : Nat) (close : Bool)
@@ -73,6 +76,7 @@ def continueReadBody (cfg : Cfg) (e : End) (hd : ReqHead) (s : Bytes) : BodyRes 
   if hd.cl > 0 then
     let n := hd.cl.toNat
     if cfg.maxBody > 0 ∧ n > cfg.maxBody then .err .tooLarge
+    else if cfg.preParse && mIMEFormData.isPrefixOf hd.contentType then .err .unmodelled
     else match takeN e n s with
       | .ok (b, rest) => .ok hd b (names.map (fun k => (k, []))) rest
       | .error x => .err x
@@ -95,6 +99,7 @@ def errStatus : RdErr → Option Nat
   | .timeout => some 408
   | .tooLarge => some 413
   | .unexpectedEOF => some 400
+  | .unmodelled => none
   | .hzTimeout => some 400     -- not a net.Error: classified as a parse error
   | .bad => some 400
 
@@ -120,6 +125,7 @@ def serveLoop (cfg : Cfg) (e : End) : Nat → Bool → Bytes → List Ev
       let cont := mayContinue hd
       let pre : List Ev := if cont then [.continue100] else []
       match continueReadBody cfg e hd s1 with
+      | .err .unmodelled => pre ++ [.unmodelled]
       | .err x =>
         -- after `100 Continue` every body error is answered (no io.EOF special case on that path)
         pre ++ (match errStatus x with
